@@ -188,6 +188,17 @@ def rows_rule(ctx: Ctx) -> None:
             f"the row is not stored exactly once per aligned address (condition: {cond})")
     rets = [fl.canon(x.value) for x in fl.returns]
     r.inst("Memory._memory_repr|returns", rets)
+    # "the addresses actually written": nothing but a store may add a key to the backing dict -- a read that
+    # inserts its default (setdefault) would make never-written cells show up as rows
+    from ..common import all_functions
+    for g in all_functions(m):
+        for n in walk_no_nested(g.node):
+            if isinstance(n, ast.Call) and isinstance(n.func, ast.Attribute) and isinstance(n.func.value, ast.Attribute) \
+                    and n.func.value.attr == "memory_file" and n.func.attr in ("setdefault", "update", "__setitem__", "fromkeys"):
+                ok = g.cls is not None and g.cls.name == "Memory" and g.name == "_write_value"
+                r.check(ok, f"{short(g.qname)}|memory_file.{n.func.attr}", g.loc(n),
+                        f"{short(g.qname)} adds keys to memory_file with `{n.func.attr}` outside the store path: the memory table lists "
+                        "every key as a written address")
     r.floor(6)
 
 
@@ -252,12 +263,22 @@ def fmt_rule(ctx: Ctx) -> None:
     r.check(ok_h, "to_hex_str|return", hx.loc(), "to_hex_str does not format its number")
     for n in WIDTHS:
         run = AbsRun(m, f, {num: Form.var("x")}, {nn: n})
+        arms = [u_expr]
         try:
-            u = run.ev.ev(u_expr)
-        except Inconclusive as exc:
-            raise AnalysisError(f"R17.fmt: the unsigned value is outside the bit-slice domain: {exc}")
-        r.check(u == Form.field("x", 0, n), f"n={n}|mask", f.loc(), f"for n={n} the value is reduced to {u.describe()} (`{fl.show(u_expr)}`) "
-                f"instead of its low {n} bits (two's complement for negative and over-wide inputs)")
+            us = [run.ev.ev(u_expr)]
+        except Inconclusive:
+            # a conditional reduction whose test is not decidable in the domain: every arm must reduce correctly
+            while any(isinstance(a, ast.IfExp) for a in arms):
+                arms = [b for a in arms for b in ((a.body, a.orelse) if isinstance(a, ast.IfExp) else (a,))]
+            try:
+                us = [run.ev.ev(a) for a in arms]
+            except Inconclusive as exc:
+                raise AnalysisError(f"R17.fmt: the unsigned value is outside the bit-slice domain: {exc}")
+        for u, arm in zip(us, arms):
+            r.check(u == Form.field("x", 0, n), f"n={n}|mask", f.loc(), f"for n={n} the value is reduced to {u.describe()} (`{fl.show(arm)}`) "
+                    f"instead of its low {n} bits (two's complement for negative and over-wide inputs)")
+        if len(us) != 1:
+            continue
         try:
             sg = run.ev.ev(s_expr)
             sdesc = sg.describe()
